@@ -10,7 +10,10 @@ use std::panic::{catch_unwind, AssertUnwindSafe};
 use std::sync::atomic::{AtomicBool, Ordering};
 use std::time::Instant;
 
-pub const VERIF_DIR: &str = "/verif";
+/// Root for evidence, replays, regress and known findings; `VERIF_ROOT` overrides it (scratch work).
+pub fn verif_dir() -> String {
+    std::env::var("VERIF_ROOT").unwrap_or_else(|_| "/verif".to_string())
+}
 
 #[derive(Clone, Copy, PartialEq, Eq, Debug)]
 pub enum Tier {
@@ -119,7 +122,7 @@ pub struct KnownFinding {
 }
 
 pub fn load_known_findings(property: &str) -> Vec<KnownFinding> {
-    let path = format!("{}/known_findings.json", VERIF_DIR);
+    let path = format!("{}/known_findings.json", verif_dir());
     let txt = match std::fs::read_to_string(&path) {
         Ok(t) => t,
         Err(_) => return vec![],
@@ -352,7 +355,7 @@ impl Engine {
     }
 
     fn write_replay(&self, section: &str, tape: Option<&[u8]>, index: Option<u64>, fl: &Failure, case: &str) -> String {
-        let dir = format!("{}/replays/{}", VERIF_DIR, self.property);
+        let dir = format!("{}/replays/{}", verif_dir(), self.property);
         let _ = std::fs::create_dir_all(&dir);
         let h = crate::tape::fnv(format!("{}|{}|{:?}|{:?}", section, fl.signature, tape.map(hex), index).as_bytes());
         let path = format!("{}/{}-{:016x}.json", dir, section.replace(|c: char| !c.is_ascii_alphanumeric(), "_"), h);
@@ -689,7 +692,7 @@ impl Engine {
 
     /// Run the committed regression replays for this property (strict: same oracle).
     pub fn regress_files(&self) -> Vec<(String, String, Option<Vec<u8>>, Option<u64>)> {
-        let dir = format!("{}/regress/{}", VERIF_DIR, self.property);
+        let dir = format!("{}/regress/{}", verif_dir(), self.property);
         let mut out = vec![];
         let mut names: Vec<_> = match std::fs::read_dir(&dir) {
             Ok(rd) => rd.filter_map(|e| e.ok()).map(|e| e.path()).filter(|p| p.extension().map(|x| x == "json").unwrap_or(false)).collect(),
@@ -748,7 +751,7 @@ impl Engine {
                 "violations": self.violations.len(),
                 "inconclusive": self.inconclusive,
             });
-            let dir = format!("{}/evidence", VERIF_DIR);
+            let dir = format!("{}/evidence", verif_dir());
             let _ = std::fs::create_dir_all(&dir);
             let path = format!("{}/{}.json", dir, self.property);
             if let Err(e) = std::fs::write(&path, serde_json::to_string_pretty(&ev).unwrap()) {
